@@ -26,6 +26,8 @@ RULE = ('random square CSR (n<=8; empty rows, missing and zero diagonals, unsort
         'model; every public relaxation function against a dense NumPy splitting formula (tol 1e-10 double, 1e-4 '
         'single), CSR vs BSR, A/b bytes, zero-diagonal rows, fixed point.  Non-trivial: the matrix has an '
         'off-diagonal entry and the sweep changes x; distinct = distinct (kind, options, input bytes).')
+RULE += (' '
+         'Every public call sees a fresh copy of the matrix, half of them with column indices stored in shuffled order; zero initial guess combined with 2-3 iterations every fifth round.')
 TRUSTED = ['pinv_array / LAPACK gelss for block inverses (contract: pseudo-inverse of the diagonal block)',
            'SciPy tobsr/tocsr conversions, get_diagonal']
 PARTIAL = ['block, jacobi_ne / gauss_seidel_nr, Schwarz and polynomial variants: model correspondence + oracle, no row-equation theorem yet',
